@@ -1,5 +1,6 @@
 \* trace mode: the sorted pair orders recorded from the real unitcell.filter_pairs ($TRACE_FILE) are
-\* validated and the block machine is run on them, with both block-end variants
+\* validated and the block machine is run on them, with both block-end variants; a line stands for the scales (ks)
+\* of the cell at which exactly this order was recorded; an invalid order ends in "badtrace" (EmitBad)
 SPECIFICATION Spec
 CONSTANTS
   MODE = "trace"
@@ -10,6 +11,7 @@ CONSTANTS
   BugEnds = {TRUE, FALSE}
   CRanges = {0, 2, 710}
   Rots <- Rots_q
+  Scales <- Scales_q
 INVARIANT TypeOK
 INVARIANT Irredundant
 INVARIANT BlocksExact
